@@ -359,7 +359,7 @@ impl<'e> Worker<'e> {
     fn unit(&mut self, idx: u64) {
         let stream = prop_num(&self.prop) as u64;
         let seed = derive(self.verif_seed, stream, idx);
-        if idx % 32 == 17 && matches!(self.prop.as_str(), "C02" | "C04" | "C05" | "C06" | "C12" | "C13" | "C14") {
+        if idx % 32 == 17 && matches!(self.prop.as_str(), "C02" | "C04" | "C05" | "C06" | "C11" | "C12" | "C13" | "C14") {
             return self.unit_alt(idx, seed);
         }
         match self.prop.as_str() {
